@@ -268,6 +268,13 @@ def binop(it, op, a, b, node=None):
         raise Unsupported(f"{op} on sequences")
     if isinstance(a, (list, tuple)) and isinstance(b, (list, tuple)) and op == "Add":
         return type(a)(list(a) + list(b))
+    if op == "Add" and type(a).__name__ == "CompList" and (isinstance(b, list) or type(b).__name__ == "CompList"):
+        # a comprehension over symbolic dicts followed by more elements: the same summary with one more part
+        from .values import CompList
+
+        out = CompList(a.skolems, a.guard, a.elems)
+        out.extra = list(a.extra) + [b]
+        return out
     if isinstance(a, list) and isinstance(b, SymList) and op == "Add":
         pre = [lift(force(x))[1] for x in a]
         k = len(pre)
